@@ -250,6 +250,7 @@ def binop(I, fr, op, l, r, node):
             return AV(kind=K_STR, tags=tags_of(l, r))
     seq = (K_LIST, K_TUPLE)
     if l.kind in seq and r.kind in seq and isinstance(op, ast.Add) and l.note != "range" and r.note != "range":
+        I.emit("arith", fr, node, op="Add", left=l, right=r, concat=True)         # list + list: concatenation, not element-wise addition
         items = (l.items + r.items) if (l.items is not None and r.items is not None) else None
         return AV(kind=l.kind, items=items, elem=join_av(l.elem, r.elem) if (l.elem or r.elem) else None,
                   origin=fresh_tok(I, fr, node), tags=tags_of(l, r), indef=indef_of(l, r),
@@ -1593,8 +1594,10 @@ def call_lib(I, fr, name, args, kwargs, node):
         I.assign(tgt, res, fr, fr.cur_stmt if getattr(fr, "cur_stmt", None) is not None else node)
         return res.replace(origin=out.origin)
     if out is not None and out.kind in (K_ARRAY, K_LIST, K_TOP) and isinstance(res, AV) and not (res.origin and res.origin == out.origin):
-        keep = res.replace(origin=out.origin)
-        I.mutate(fr, out, node, "out=", lambda a, keep=keep: keep.replace(shape=a.shape if a.shape is not None else keep.shape), strong=True,
+        # the buffer keeps the dtype it was allocated with, whatever is written into it
+        keep = res.replace(origin=out.origin, dtype=out.dtype if out.dtype not in ("top", None) else res.dtype)
+        I.mutate(fr, out, node, "out=", lambda a, keep=keep: keep.replace(shape=a.shape if a.shape is not None else keep.shape,
+                                                                          dtype=a.dtype if a.dtype not in ("top", None) else keep.dtype), strong=True,
                  value=res)
         return keep
     return res
@@ -1987,7 +1990,11 @@ def _multiply(C):
 
 @lib("numpy.add")
 def _add(C):
-    return binop(C.I, C.fr, ast.Add(), C.arg(0), C.arg(1), C.node)
+    v = binop(C.I, C.fr, ast.Add(), C.arg(0), C.arg(1), C.node)
+    n = C.node
+    if isinstance(n, ast.Call) and len(n.args) >= 2 and C.I._adjacent_pair(n.args[0], n.args[1]) and v.kind == K_ARRAY:
+        v = v.replace(tags=v.tags | frozenset(["pairsum"]))            # np.add(y[1:], y[:-1]): the trapezoid rule's integrand sums
+    return v
 
 
 @lib("numpy.subtract")
@@ -2163,7 +2170,9 @@ def _cumsum(C):
         v0, v1 = ld.get(0, c_), ld.get(1, c_)
         cparts = ("ap", c_, v0, v0 + v1 - c_)      # running sum of [v0, v1, c, c, ...]: element k >= 1 is c*k + (v0 + v1 - c)
     res = AV(kind=K_ARRAY, dtype=dt, shape=shape, alg=dict(v.alg), sign=_sum_sign(v) if v.sign != S_POS else S_POS, parts=cparts,
-             mono=mono, origin=C.fresh(), tags=v.tags | frozenset(["quad:rectangle", "cum"]), indef=v.indef,
+             mono=mono, origin=C.fresh(), indef=v.indef,
+             # the running sum of (y[k] + y[k+1]) * h / 2 IS the trapezoid rule; of anything else it is the rectangle rule
+             tags=(v.tags - frozenset(["pairsum"])) | frozenset(["quad:trapezoid" if "pairsum" in v.tags else "quad:rectangle", "cum"]),
              f0=v.f0 and (v.shape is None or len(v.shape) == 1 or (ma is not None and v.shape is not None and ma == len(v.shape) - 1)))
     out = C.arg(3, "out")
     if out is not None and out.kind != K_NONE:
